@@ -77,6 +77,8 @@ def zoo():
     exact("exact_rff", lambda lik: K.ScaleKernel(K.RFFKernel(num_samples=6, num_dims=1)))
     exact("exact_rff_lazy", lambda lik: K.ScaleKernel(K.RFFKernel(num_samples=6)))
     exact("kiss", lambda lik: K.ScaleKernel(K.GridInterpolationKernel(K.RBFKernel(), grid_size=12, num_dims=1, grid_bounds=[(-1.5, 1.5)])))
+    # data-driven interpolation grid (no grid_bounds): the grid, its bounds and the initialisation flag are state
+    exact("kiss_dyn", lambda lik: K.ScaleKernel(K.GridInterpolationKernel(K.RBFKernel(), grid_size=12, num_dims=1)))
     exact("sgpr", lambda lik: K.InducingPointKernel(K.ScaleKernel(K.RBFKernel()), inducing_points=torch.linspace(-0.9, 0.9, 4, dtype=D).unsqueeze(-1), likelihood=lik))
     exact("mtask_rank1", lambda lik: K.MultitaskKernel(K.RBFKernel(), num_tasks=2, rank=1), lambda s, n: L.MultitaskGaussianLikelihood(num_tasks=2, rank=1), tasks=2)
     exact("mtask_rank0", lambda lik: K.MultitaskKernel(K.MaternKernel(nu=2.5), num_tasks=2, rank=1), lambda s, n: L.MultitaskGaussianLikelihood(num_tasks=2, rank=0), tasks=2)
@@ -101,7 +103,7 @@ def zoo():
 
     def with_constraints(model, seed):
         s = 0.02 * (seed % 7)                         # bounds differ between original and fresh construction
-        model.covar_module.base_kernel.register_constraint("raw_lengthscale", Interval(0.05 + s, 4.0 + s))
+        model.covar_module.base_kernel.register_constraint("raw_lengthscale", Interval(0.05 + s, 4.0 + 5 * s))    # position AND width differ
         model.likelihood.noise_covar.register_constraint("raw_noise", GreaterThan(1e-3 + s / 10))
     exact("exact_constraints", lambda lik: K.ScaleKernel(K.RBFKernel()), post=with_constraints)
 
@@ -239,6 +241,28 @@ def to_save_point(m, point):
     lik.zero_grad(set_to_none=True)
     if point == "trained":
         return
+    if point == "regridded":
+        # a history that moves data-dependent state: an evaluation-mode prediction well outside the training range, then one more
+        # training step (which also drops the evaluation-mode caches); the save point is in training mode
+        model.eval(); lik.eval()
+        with torch.no_grad():
+            if m["kind"] == "list":
+                model(*[xs[0] * 1.7 for xs in m["xs"]])
+            else:
+                model(*[(t * 1.7 if t.dtype.is_floating_point else t) for t in m["xs"]])
+        model.train(); lik.train()
+        opt.zero_grad()
+        if m["kind"] == "list":
+            loss = -gpytorch.mlls.SumMarginalLogLikelihood(lik, model)(model(*model.train_inputs), model.train_targets)
+        elif m["kind"] == "exact":
+            loss = -gpytorch.mlls.ExactMarginalLogLikelihood(lik, model)(model(*m["x"]), m["y"])
+        else:
+            loss = -gpytorch.mlls.VariationalELBO(lik, model, num_data=m["y"].shape[0])(model(m["x"][0]), m["y"])
+        loss.sum().backward()
+        opt.step()
+        model.zero_grad(set_to_none=True)
+        lik.zero_grad(set_to_none=True)
+        return
     model.eval(); lik.eval()
     with settings.detach_test_caches(point != "attached"):
         if m["kind"] == "list":
@@ -331,6 +355,13 @@ def _worker(item):
         # the restored model is a model of its own: (A) changing it leaves the original alone, (B) the same change applied to
         # both keeps them identical (closures of priors / constraints read the parameters of the object they belong to)
         r2 = dict(key=[fam, point, mech, "diverge"], ok=True, nontrivial=True, sig="C18/%s/%s/%s" % (fam, mech, point), case=c)
+        # re-evaluating the untouched original must reproduce its observables; where it does not (evaluation itself moves data-dependent
+        # state, e.g. a data-driven interpolation grid: history dependence is C03's subject) the independence test has no baseline
+        ok, o1a = core.guarded(lambda: observables(m, point))
+        if not ok or any(not (o1[k].shape == o1a[k].shape and torch.equal(o1[k], o1a[k])) for k in o1 if k in o1a):
+            r2.update(nontrivial=False)
+            out.append(r2)
+            continue
         ok, e = core.guarded(lambda: diverge(rest, seed))
         ok1, o1b = core.guarded(lambda: observables(m, point)) if ok else (False, e)
         if not ok or not ok1:
@@ -445,7 +476,7 @@ def run(ck):
         elif r.rc != 0:
             raise tlc.TLCError("TLC failed on Persist:\n" + r.stdout[-1500:])
     ck.extra["model_predictions"] = predicted_fail
-    points = ["fresh", "trained", "eval_predicted", "attached"]
+    points = ["fresh", "trained", "eval_predicted", "attached", "regridded"]
     mechs = ["state_dict", "pickle", "deepcopy"]
     cases = []
     for f in fams:
